@@ -33,6 +33,10 @@ Definition parse_bool (s : str) : outcome bool :=
   else if existsb (str_eqb s) [[48]; [102]; [70]; [70;65;76;83;69]; [102;97;108;115;101]; [70;97;108;115;101]] then Ok false
   else Err e_syntax.
 
+(* strconv.FormatBool *)
+Definition format_bool (b : bool) : str :=
+  if b then [116;114;117;101] else [102;97;108;115;101].
+
 (* checkKindsSupported: scalar kinds only (floats/complex are scalar kinds of
    the source that this model does not cover) *)
 Definition scalar_kind (t : ty) : bool :=
